@@ -1124,9 +1124,51 @@ func init() {
 			errBeforeUse(c, r)
 		})
 	})
+	teardownCallers := func(prop, id string) {
+		extra[prop] = append(extra[prop], func(c *core.Ctx, r *core.Report) {
+			rule(r, id, "the handle's tearing-down phase begins only when its use ends: the function that switches the phase marker on is reached only through the teardown the constructor handed out, never called from another method while the body may still run", func() {
+				f := handleFields(c)
+				if f.tearing == nil {
+					r.Undecided("anchor", "-", "no phase marker on testing.T")
+					return
+				}
+				n := 0
+				for _, fn := range c.AllFuncs {
+					if core.RelPkg(fn) != "pkg/f1/testing" || fn.Parent() != nil {
+						continue
+					}
+					sets := false
+					an.Instrs(fn, func(in ssa.Instruction) {
+						if st, ok := in.(*ssa.Store); ok && an.SameField(an.FieldOfAddr(st.Addr), f.tearing) {
+							if k, isK := st.Val.(*ssa.Const); isK && k.Value != nil && k.Value.String() == f.tearingOn {
+								sets = true
+							}
+						}
+					})
+					if !sets {
+						continue
+					}
+					n++
+					sites := an.CallSitesOf(c, fn)
+					for _, cs := range sites {
+						r.Violation(core.FuncName(cs.Parent())+"#enters-teardown", an.Pos(c, cs), "%s switches the handle into its tearing-down phase by calling %s directly: a failure or panic of the body after this point is booked as a teardown failure and the iteration is reported as passed", core.FuncName(cs.Parent()), core.FuncName(fn))
+					}
+					if len(sites) == 0 {
+						r.OK(core.FuncName(fn)+"#enters-teardown", c.Pos(fn.Pos()), "%s is reached only as the teardown value handed out with the handle", core.FuncName(fn))
+					}
+				}
+				r.Floor("functions switching the phase marker on", n, 1)
+			})
+		})
+	}
+	teardownCallers("C07", "C07.R8")
+	teardownCallers("C01", "C01.R15")
 	extra["C04"] = append(extra["C04"], func(c *core.Ctx, r *core.Report) {
 		rule(r, "C04.R7", "a worker leaves its loop only when the pool was stopped or the limit path was taken: every exit of the loop around the iteration runner is decided by the stop flag, follows the limit path, or is decided by a helper that reports so only in those two cases", func() {
 			workerExitRule(c, r)
+		})
+		rule(r, "C04.R9", "the iteration function runs on the goroutine of the worker that took the request: no second `go` between the start of a worker and the call of the user's function", func() {
+			ownGoroutineRule(c, r)
 		})
 	})
 	extra["C18"] = append(extra["C18"], func(c *core.Ctx, r *core.Report) {
@@ -1283,6 +1325,8 @@ func init() {
 	imported("C11", "C11.R7", "a config-file gaussian stage runs the distributed rate with the tick interval returned with it (shared with C15.R3)", "C15", []string{"C15.R3"}, keyContains("rate-pair"), 1)
 	imported("C19", "C19.R5", "the banner is chosen by a verdict that is a function of the counts and options only (shared with C08.R1)", "C08", []string{"C08.R1"}, nil, 1)
 	imported("C18", "C18.R5", "the runner is stopped on every path after it was started (shared with C05.R3)", "C05", []string{"C05.R3"}, keyContains("progress-region", "progress-start"), 0)
+	imported("C02", "C02.R9", "what a tick requests is what reaches the pending counter: a request trimmed or changed on the way is neither started nor reported dropped (shared with C09.R2)", "C09", []string{"C09.R2"}, keyContains("#chain"), 1)
+	imported("C04", "C04.R8", "pending requests are not lost on the way to the workers: supersede and take are single atomic read-modify-writes, so that `concurrency` pending requests can occupy all workers (shared with C02.R2)", "C02", []string{"C02.R2"}, nil, 2)
 	imported("C20", "C20.R4", "a stop inside a component unwinds to the runner's frame: recover is called only by the classifier deferred from frames that call user code, and the pooled handle is fully reset between iterations (shared with C07.R4, C07.R6)", "C07", []string{"C07.R4", "C07.R6"}, nil, 3)
 }
 
